@@ -9,7 +9,9 @@
 //   - can stop the world BEFORE mutating call k, or INSIDE write k (torn write),
 //   - takes a snapshot of the directory at the crash instant, either as-is
 //     ("ordered") or with all bytes written since the last Sync of each file
-//     dropped ("strong"); renames and unlinks survive in both.
+//     dropped ("strong"); renames and unlinks survive in both,
+//   - can make one mutating call fail with an I/O error instead of performing it
+//     (FailOp: disk full, EIO); a failing write leaves the first half behind.
 // "Stopping the world" is runtime.Goexit() in the calling goroutine at the crash
 // point and in every later shim call made for that directory.
 package vos
@@ -22,6 +24,7 @@ import (
 	"runtime"
 	"strings"
 	"sync"
+	"syscall"
 )
 
 type FileMode = fs.FileMode
@@ -73,11 +76,37 @@ type Controller struct {
 	OnOp func(Op)
 	// OnCrash is called under the lock when the crash happens (after the snapshot).
 	OnCrash func(k int, op Op)
+	// FailOp: "op:class" (create|write|sync|rename : hdr|body|metanew|meta), "" = never. The
+	// FailNth-th (0, 1 = first) call of that kind returns an I/O error instead of being performed;
+	// it is not numbered as an operation. OnFail is called under the lock when that happens.
+	FailOp  string
+	FailNth int
+	OnFail  func(Op)
 
-	mu      sync.Mutex
-	n       int
-	crashed bool
-	synced  map[string]int64 // bytes known durable per path
+	mu       sync.Mutex
+	n        int
+	crashed  bool
+	synced   map[string]int64 // bytes known durable per path
+	failSeen int
+}
+
+// failing reports (with c.mu held) whether this call is the one that has to fail.
+func (c *Controller) failing(op, path string) bool {
+	if c.FailOp == "" || c.crashed || c.FailOp != op+":"+class(path) {
+		return false
+	}
+	c.failSeen++
+	n := c.FailNth
+	if n == 0 {
+		n = 1
+	}
+	if c.failSeen != n {
+		return false
+	}
+	if c.OnFail != nil {
+		c.OnFail(Op{N: c.n + 1, Op: op, File: class(path), Name: filepath.Base(path)})
+	}
+	return true
 }
 
 var (
@@ -187,7 +216,8 @@ func (c *Controller) snapshot() {
 	}
 	ents, _ := os.ReadDir(c.Dir)
 	for _, e := range ents {
-		if e.IsDir() {
+		if e.IsDir() { // sub-directories are not the queue's: they survive as (empty) directories
+			os.Mkdir(filepath.Join(c.SnapDir, e.Name()), 0o700)
 			continue
 		}
 		src := filepath.Join(c.Dir, e.Name())
@@ -284,6 +314,10 @@ func Create(name string) (*File, error) {
 		return &File{f: f, path: name}, nil
 	}
 	c.mu.Lock()
+	if c.failing("create", name) {
+		c.mu.Unlock()
+		return nil, &PathError{Op: "open", Path: name, Err: syscall.ENOSPC}
+	}
 	ok, _ := c.step("create", name, 0)
 	if !ok {
 		c.mu.Unlock()
@@ -315,6 +349,10 @@ func OpenFile(name string, flag int, perm FileMode) (*File, error) {
 		return &File{f: f, c: c, path: name}, nil
 	}
 	c.mu.Lock()
+	if c.failing("create", name) {
+		c.mu.Unlock()
+		return nil, &PathError{Op: "open", Path: name, Err: syscall.ENOSPC}
+	}
 	ok, _ := c.step("create", name, 0)
 	if !ok {
 		c.mu.Unlock()
@@ -363,6 +401,10 @@ func Rename(oldpath, newpath string) error {
 		return os.Rename(oldpath, newpath)
 	}
 	c.mu.Lock()
+	if c.failing("rename", newpath) {
+		c.mu.Unlock()
+		return &os.LinkError{Op: "rename", Old: oldpath, New: newpath, Err: syscall.EIO}
+	}
 	ok, _ := c.step("rename", newpath, 0)
 	if !ok {
 		c.mu.Unlock()
@@ -421,6 +463,11 @@ func (f *File) Write(p []byte) (int, error) {
 		return f.f.Write(p)
 	}
 	c.mu.Lock()
+	if c.failing("write", f.path) {
+		n, _ := f.f.Write(p[:len(p)/2])
+		c.mu.Unlock()
+		return n, &PathError{Op: "write", Path: f.path, Err: syscall.ENOSPC}
+	}
 	ok, torn := c.step("write", f.path, len(p))
 	if !ok {
 		c.mu.Unlock()
@@ -466,6 +513,10 @@ func (f *File) Sync() error {
 		return f.f.Sync()
 	}
 	c.mu.Lock()
+	if c.failing("sync", f.path) {
+		c.mu.Unlock()
+		return &PathError{Op: "sync", Path: f.path, Err: syscall.EIO}
+	}
 	ok, _ := c.step("sync", f.path, 0)
 	if !ok {
 		c.mu.Unlock()
